@@ -12,6 +12,7 @@ let dispatch prop input observed =
   | "C13" | "C14" | "C16" -> Schema.run prop input observed
   | "C17" -> Schema.run17 input observed
   | "C15" -> Schema.run15 input observed
+  | "C07" -> Exec.run_c07 input observed
   | "C01" | "C02" | "C06" | "C08" | "C09" | "C10" | "C11" -> Exec.run prop input observed
   | p -> failwith ("modelrun: unknown property " ^ p)
 
@@ -30,7 +31,8 @@ let () =
               let observed = if prop = "C18" || prop = "C03" then Text.norm_floats observed
                 else if prop = "C13" || prop = "C14" || prop = "C16" then Schema.project observed
                 else if prop = "C17" then Schema.project17 observed
-                else if prop = "C15" then Schema.project15 observed else observed in
+                else if prop = "C15" then Schema.project15 observed
+                else if prop = "C07" then Exec.c07_project_rejected expected (Exec.c07_project (snd (Exec.c07_sections input)) observed) else observed in
               let ok = S.to_string expected = S.to_string observed in
               Printf.printf "%s %s %s %s\n" id (if ok then "ok" else "mismatch") verdict (S.to_string expected);
               if not ok && Sys.getenv_opt "MODELRUN_DEBUG" <> None then Printf.printf "#observed %s\n" (S.to_string observed)
